@@ -1,16 +1,15 @@
-SPECIFICATION Spec
+SPECIFICATION FairSpec
 CONSTANTS
   Callers = {"c0", "c1"}
-  Programs <- ProgsReads
+  Programs <- ProgsShut
   Alphabet = {}
   Budget = 0
-  CfgRec <- CfgReads
+  CfgRec <- CfgShut
   Horizon = 0
   EstOf <- EstZero
-  WithConsumer = TRUE
+  WithConsumer = FALSE
   WithSweeper = FALSE
   KeepHist = FALSE
 INVARIANT NoViolation
-INVARIANT Inv_C01
-INVARIANT Inv_TypeOK
+PROPERTY EventuallyAcked
 CHECK_DEADLOCK FALSE
